@@ -7,6 +7,8 @@
 //! from the AST, and the verified checker decides the round trip on the implementation's output.
 #[path = "../quilgen.rs"]
 mod quilgen;
+#[path = "../ppmodel.rs"]
+mod ppmodel;
 
 use quil_rs::instruction::Instruction;
 use quil_rs::quil::Quil;
@@ -141,8 +143,10 @@ impl Ctx {
         };
         let known = known_class(std::slice::from_ref(&i1));
         let mut it = Interner::default();
+        // waveform parameter keys first: the model's key order is the interning order
+        ppmodel::preintern(std::slice::from_ref(&i1), &mut it);
         let t1 = quilgen::tokens_to_coq(text1, &mut it);
-        let ast = quilgen::instr(&i1, &mut it);
+        let ast = ppmodel::instr(&i1, &mut it);
         let (print_ok, eq, stable, t2) = match i1.to_quil() {
             Err(_) => (false, false, false, None),
             Ok(text2) => {
@@ -166,11 +170,13 @@ impl Ctx {
         match (t1, ast, t2) {
             (Some(t1), Some(ast), Some(t2)) if print_ok => {
                 self.run.count(&format!("{class}:fragment:{}", if ok { "roundtrip" } else { "FAIL" }));
+                self.run.count(&format!("modelled:{}", kind_name(&i1)));
                 let coq = format!("CFrag {t1} ({ast}) {t2} {} {}", b(eq), b(stable));
                 self.run.case(coq, &desc, true, known);
             }
             _ => {
                 self.run.count(&format!("{class}:opaque:{}", if ok { "roundtrip" } else { "FAIL" }));
+                self.run.count(&format!("opaque:{}", kind_name(&i1)));
                 let coq = format!("COpaque {} {} {}", b(print_ok), b(eq), b(stable));
                 self.run.case(coq, &desc, true, known);
             }
